@@ -8,6 +8,7 @@ from fractions import Fraction as Fr
 from migen import Signal, ClockDomain
 from migen.fhdl.structure import Constant
 from migen.fhdl.specials import Instance
+from migen.fhdl import tracer as _tracer
 
 from checks.c20_ref import (fr, representable, Lazy, TRUE, FALSE, WIDE, NARROW, EPS, Arith, Explicit, Union, Out, Model,
                             search, verify, _s)
@@ -141,6 +142,10 @@ class Family:
         vname, vkw = variant
         r = Result()
         sink = io.StringIO()
+        # Migen's name tracer keeps every object ever created in global lists that it scans linearly (quadratic over a
+        # long enumeration); the lists only feed signal naming, so they are emptied between requests.
+        _tracer.classname_to_objs.clear()
+        _tracer.name_to_idx.clear()
         try:
             with watchdog(timeout), contextlib.redirect_stdout(sink):
                 pll = self.new(vkw)
